@@ -43,6 +43,40 @@ RECURSIVE ClassRun(_, _, _)
 ClassRun(p, cls, max) == IF max > 0 /\ p < N /\ InSeq(Inp[p + 1], cls) THEN 1 + ClassRun(p + 1, cls, max - 1) ELSE 0
 SubText(p, q) == SubSeq(Inp, p + 1, q)
 
+\* ---------------------------------------------------------------- meta expressions @name @int @uint @float @bool (docs/syntax.rst)
+IsDigit(c) == c \in {"0", "1", "2", "3", "4", "5", "6", "7", "8", "9"}
+IsAlphaCh(c) == InSeq(c, Cfg.alpha)
+\* digits with optional INTERNAL underscores, from offset p: end offset (p if there is no digit at p)
+RECURSIVE DigitsEnd(_)
+DigitsEnd(p) == IF p < N /\ IsDigit(Inp[p + 1]) THEN DigitsEnd(p + 1)
+                ELSE IF p + 1 < N /\ Inp[p + 1] = "_" /\ IsDigit(Inp[p + 2]) /\ p > 0 /\ IsDigit(Inp[p]) THEN DigitsEnd(p + 1)
+                ELSE p
+SignEnd(p) == IF p < N /\ Inp[p + 1] \in {"+", "-"} THEN p + 1 ELSE p
+IntEnd(p) == LET q == SignEnd(p) IN IF DigitsEnd(q) > q THEN DigitsEnd(q) ELSE p           \* p itself: no match
+FloatEnd(p) == LET i == IntEnd(p) IN
+               IF i = p THEN p
+               ELSE LET f == IF i < N /\ Inp[i + 1] = "." THEN (IF DigitsEnd(i + 1) > i + 1 THEN DigitsEnd(i + 1) ELSE i + 1) ELSE i
+                        x == IF f < N /\ Inp[f + 1] \in {"e", "E"} /\ IntEnd(f + 1) > f + 1 THEN IntEnd(f + 1) ELSE f
+                    IN x
+RECURSIVE NameEnd(_)
+NameEnd(p) == IF p < N /\ (IsAlphaCh(Inp[p + 1]) \/ IsDigit(Inp[p + 1]) \/ Inp[p + 1] = "_" \/ InSeq(Inp[p + 1], Cfg.namechars)) THEN NameEnd(p + 1) ELSE p
+NameStartOk(p) == p < N /\ (IsAlphaCh(Inp[p + 1]) \/ Inp[p + 1] = "_" \/ InSeq(Inp[p + 1], Cfg.namechars))
+RECURSIVE DigitsVal(_, _, _)
+DigitsVal(p, q, acc) == IF p >= q THEN acc ELSE IF Inp[p + 1] = "_" THEN DigitsVal(p + 1, q, acc)
+                        ELSE DigitsVal(p + 1, q, acc * 10 + (CHOOSE n \in 0..9 : ToString(n) = Inp[p + 1]))
+BoolWords == <<<<"t", "r", "u", "e">>, <<"T", "r", "u", "e">>, <<"f", "a", "l", "s", "e">>, <<"F", "a", "l", "s", "e">>>>
+MetaMatch(kind, p) ==
+  CASE kind = "uint" -> IF DigitsEnd(p) > p THEN [ok |-> TRUE, p |-> DigitsEnd(p), v |-> Int(DigitsVal(p, DigitsEnd(p), 0))] ELSE [ok |-> FALSE]
+    [] kind = "int" -> IF IntEnd(p) > p
+                       THEN [ok |-> TRUE, p |-> IntEnd(p),
+                             v |-> [t |-> "i", v |-> DigitsVal(SignEnd(p), IntEnd(p), 0), neg |-> (p < N /\ Inp[p + 1] = "-")]]
+                       ELSE [ok |-> FALSE]
+    [] kind = "float" -> IF FloatEnd(p) > p THEN [ok |-> TRUE, p |-> FloatEnd(p), v |-> [t |-> "f", v |-> SubText(p, FloatEnd(p))]] ELSE [ok |-> FALSE]
+    [] kind = "name" -> IF NameStartOk(p) THEN [ok |-> TRUE, p |-> NameEnd(p), v |-> Str(SubText(p, NameEnd(p)))] ELSE [ok |-> FALSE]
+    [] kind = "bool" -> LET I == {i \in 1..4 : IsPrefixAt(Inp, p, BoolWords[i])} IN
+                        IF I = {} THEN [ok |-> FALSE]
+                        ELSE LET i == CHOOSE i \in I : TRUE IN [ok |-> TRUE, p |-> p + Len(BoolWords[i]), v |-> Bool(i <= 2)]
+
 \* ---------------------------------------------------------------- results
 S(p, items, val, ns, cut) == [k |-> "ok", p |-> p, items |-> items, val |-> val, ns |-> ns, cut |-> cut]
 F  == [k |-> "ko"]
@@ -115,6 +149,8 @@ E(e, p, ns, sd, d) ==
     [] e.op = "pat" -> LET n == ClassRun(p, e.cls, IF e.many THEN N ELSE 1) IN
                        IF n < e.min THEN F
                        ELSE S(p + n, <<Str(SubText(p, p + n))>>, Str(SubText(p, p + n)), ns, FALSE)
+    [] e.op = "meta" -> LET r == MetaMatch(e.kind, Skip(p)) IN
+                        IF r.ok THEN S(r.p, <<r.v>>, r.v, ns, FALSE) ELSE F
     [] e.op = "dot" -> IF p < N THEN S(p + 1, <<Str(<<Inp[p + 1]>>)>>, Str(<<Inp[p + 1]>>), ns, FALSE) ELSE F
     [] e.op = "const" -> S(Skip(p), <<e.v>>, e.v, ns, FALSE)
     [] e.op = "constbad" -> KoSem
